@@ -16,7 +16,7 @@ import re
 from props import _c09_trace as T
 
 KCODE = {"LatestHolderCommitmentTXInfo": 1, "LatestHolderCommitment": 1, "LatestCounterpartyCommitmentTXInfo": 2,
-         "LatestCounterpartyCommitment": 2, "CommitmentSecret": 3, "PaymentPreimage": 4}
+         "LatestCounterpartyCommitment": 2, "CommitmentSecret": 3, "PaymentPreimage": 4, "ShutdownScript": 5}
 FIELD = {1: "latest_monitor_update_id", 2: "MONITOR_UPDATE_IN_PROGRESS", 3: "AWAITING_REMOTE_REVOKE", 4: "PEER_DISCONNECTED",
          5: "monitor_pending_revoke_and_ack", 6: "monitor_pending_commitment_signed", 7: "monitor_pending_channel_ready",
          8: "resend_order", 9: "holding cell size", 10: "monitor_pending forwards/failures/finalized/update_adds", 11: "monitor_update_blocked_actions",
@@ -121,13 +121,20 @@ def build_instances(trace, meta):
             d = rec.get("d")
             main = None
             if k == inst.start and inst.init.startswith("init_new"):
-                labels = []
+                # a 0-conf channel is "locked" the moment it is funded
+                labels = ["LFundingLocked false"] if meta.get("zeroconf") else []
             elif op[0] == "send" and applied:
                 route_first = first_hop(op, n, inst)
                 if route_first and (ws or hold_of(N) > hold_of(P)):
                     labels.append("LSend %s" % v_of(ws[0][2] if ws else -1))
                     used = 1 if ws else 0
                     main = "send"
+            elif op[0] == "close" and applied and len(op) > 2 and int(op[1]) % NN(views) == n and N["latest"] != P["latest"] or (
+                    op[0] == "close" and applied and int(op[1]) % NN(views) == n and any(m[0] == n and m[3] == chan and m[2] == "shutdown" for m in rec["m"])):
+                script = bool(ws) or N["latest"] != P["latest"]
+                labels.append("LShutdown true %s %s" % (b(script), v_of(ws[0][2] if ws else -1)))
+                used = 1 if ws else 0
+                main = "shutdown"
             elif op[0] == "claim" and applied and ws and "PaymentPreimage" in ws[0][3]:
                 labels.append("LClaim %s" % v_of(ws[0][2]))
                 used = 1
@@ -167,6 +174,11 @@ def build_instances(trace, meta):
                             main = "reest"
                     elif kind == "channel_ready":
                         labels.append("LRecvChannelReady")
+                    elif kind == "shutdown" and not rec["errs"]:
+                        script = (bool(ws) and "ShutdownScript" in ws[0][3]) or (N["latest"] != P["latest"] and not ws)
+                        labels.append("LShutdown false %s %s" % (b(script), v_of(ws[0][2] if ws else -1)))
+                        used = 1 if (ws and "ShutdownScript" in ws[0][3]) else 0
+                        main = "shutdown"
                 elif kind == "update_fulfill_htlc" and ws and "PaymentPreimage" in ws[0][3]:
                     labels.append("LClaim %s" % v_of(ws[0][2]))
                     used = 1
@@ -187,7 +199,7 @@ def build_instances(trace, meta):
                 # the funding reached the required depth on every node (the label is a no-op when the channel
                 # already recorded OUR_CHANNEL_READY); with the peer disconnected nothing is sent and nothing is
                 # flagged, only the state bit changes
-                labels.append("LFundingLocked")
+                labels.append("LFundingLocked true")
             self_disc = N["pd"] and not P["pd"] and "LDisconnect" not in labels
             # blocked updates released by a completion on another channel
             if main is None and len(N["blocked"]) < len(P["blocked"]):
@@ -214,6 +226,9 @@ def build_instances(trace, meta):
                         labels.append("LQueue %s" % ("HFee" if (N["hcfee"] and not P["hcfee"] and j == 0) else "HAdd"))
                 elif hn < h_mid:
                     labels.append("LFreeHold true VInProgress")
+            # closing_signed leaving: the model must agree that the negotiation may proceed
+            if 5 in rel_of(rec, n, chan):
+                labels.append("LClosing true")
             # a duplicate claim only queues (or runs) its completion action
             if N["acts"] > P["acts"] and main != "claim":
                 for j in range(N["acts"] - P["acts"]):
@@ -229,13 +244,19 @@ def build_instances(trace, meta):
             bc = len([x for x in rec["b"] if x[0] == n and x[1] == "funding"])
             if k == inst.start and inst.init.startswith("init_new"):
                 # outputs of the creation step belong to init_new_outs
-                rel, bc = [], 0
+                if not meta.get("zeroconf"):
+                    rel = []
+                bc = 0
                 wl = "[]"
             inst.steps.append("([%s], %s, %s, %s, %s, %s, %s, %d)" % ("; ".join(labels), zl(sc), zl(N["blocked"]), zl(N["inflight"]),
                                                                        zl(N["cm"]), wl, zl(rel), bc))
             inst.real_steps.append(k)
             inst.prev = N
     return list(insts.values())
+
+
+def NN(views):
+    return 1 + max(k[0] for k in views)
 
 
 def first_hop(op, n, inst):
@@ -256,6 +277,8 @@ def rel_of(rec, n, chan):
                 out.append(2)
             elif m[2] == "channel_ready":
                 out.append(3)
+            elif m[2] == "closing_signed":
+                out.append(5)
     return out
 
 
@@ -269,7 +292,7 @@ def correspondence(ctx, lines, traces, limit=None):
         if not tr or tr[-1].get("aborted") or any(r.get("panic") for r in tr[:-1]):
             continue
         head = T.split_schedule(line)[0].split()
-        meta = {"deferred": len(head) > 2 and head[2] == "def"}
+        meta = {"deferred": len(head) > 2 and head[2] == "def", "zeroconf": "zeroconf" in head}
         for inst in build_instances(tr, meta):
             if not inst.steps:
                 continue
